@@ -79,7 +79,7 @@ NODE_COMMENTS = ("[c]", "[a comment, with; punctuation (x)]", "[&k=v]", "[&rate=
                  "[&!color=#ff0000]", "[&a=1][&b=2]", "[ spaced ]", "[&k=v][plain]")
 TREE_COMMENTS = ("[tree comment]", "[&lnP=-12.5]", "[&lnP=-12.5,posterior=0.5]", "[&&NHX:T=1]", "[!note]", "[&x={1,2}]",
                  "[%sth]", "[&state=1000]")
-WEIGHTS = ("[&W 1/2]", "[&W 0.25]", "[&w 3]", "[&W 1/3]", "[&W 2/8]", "[&W 1.5e-1]")
+WEIGHTS = ("[&W 1/2]", "[&W 0.25]", "[&w 3]", "[&W 1/3]", "[&W 2/8]", "[&W 1.5e-1]", "[&W 0]", "[&W 0/4]")   # zero: a boundary value every route must deliver as 0.0, not as "no weight"
 
 
 def length_token(rng, pattern):
